@@ -555,7 +555,16 @@ func classify(d account.AccountDatabase, h []Op, x common.Address, global bool, 
 			s += "-then-read"
 		}
 	}
-	return s, subject, "reverted-" + groupList(rv)
+	trigger = "reverted-write" // some mutator was reverted
+	if g := groupList(rv); g == "read" || g == "committed-read" || g == "read+committed-read" {
+		trigger = "reverted-" + g // only reads were "reverted"
+		if !accessorClass {
+			trigger = "reverted-read"
+		}
+	} else if g == "scratch" {
+		trigger = "reverted-scratch"
+	}
+	return s, subject, trigger
 }
 
 func describe(h []Op) []string {
